@@ -68,6 +68,10 @@ CANARIES = [
     ('init-too-small-file', 'C16', 'src/db.rs', 'file.allocate(pagesize * (num_pages as u64))?;', 'file.allocate(pagesize * ((num_pages - 1) as u64))?;'),
     ('resize-allocate-less', 'C16', 'src/db.rs', '        file.allocate(new_size)?;', '        file.allocate(new_size / 2)?;'),
     ('open-existing-rewrites-header', 'C06', 'src/db.rs', '            open_file(path, false, self.flags.direct_writes)?\n        };', '            { let mut f = open_file(path, false, self.flags.direct_writes)?; f.flush()?; f }\n        };'),
+    ('range-ignore-excluded-start', 'C08', 'src/cursor.rs', '                Bound::Excluded(s) => Some((s, true)),', '                Bound::Excluded(s) => Some((s, false)),'),
+    ('range-excluded-end-inclusive', 'C08', 'src/cursor.rs', '                Bound::Excluded(e) => {\n                    if data.key() < *e {', '                Bound::Excluded(e) => {\n                    if data.key() <= *e {'),
+    ('range-no-skip-before-start', 'C08', 'src/cursor.rs', '                    if data.key() < *s {\n                        self.c.next();\n                    }', '                    if data.key() < *s {\n                    }'),
+    ('range-skip-existing-start', 'C08', 'src/cursor.rs', '                    if excluded {\n                        self.c.next();\n                    }', '                    self.c.next();'),
 ]
 
 
